@@ -248,7 +248,7 @@ impl Check for C14 {
                 let inst = match kind % 3 {
                     0 => Inst::SumVec { f: FieldKind::F128, max: U(1 + (*p % 1000) as u128), len, chunk, mt: false },
                     1 => Inst::Histogram { f: FieldKind::F128, len, chunk, mt: false },
-                    _ => Inst::Multihot { f: FieldKind::F128, len, max_weight: 1 + (*p as usize) % len, chunk, mt: false },
+                    _ => Inst::Multihot { f: FieldKind::F128, len, max_weight: 1 + (*p as usize) % (len + 4), chunk, mt: false },
                 };
                 obs.label(format!("ctor:{}", inst.name()));
                 if *threads >= 2 && chunk >= 2 {
